@@ -103,11 +103,16 @@ def check_case(case, res=None):
         from pathlib import Path
         err = None
         try:
-            os.walk = permuted_walk(case.get("walk_seed", 1) or 1)
+            os.walk = permuted_walk(-1)        # sub-directories and files in ascending order
             with contextlib.redirect_stdout(io.StringIO()):
                 g = gm.ProtocolCodeGenerator(Path(xml_b))
                 g.generate(Path(out_b))
                 g.generate(Path(out_b))
+            # B2: a drawn permutation of the walk, fresh output directory
+            os.walk = permuted_walk(case.get("walk_seed", 1) or 1)
+            out_b2 = os.path.join(pkg.root, "out_b2")
+            with contextlib.redirect_stdout(io.StringIO()):
+                gm.ProtocolCodeGenerator(Path(xml_b)).generate(Path(out_b2))
         except Exception as e:  # noqa
             err = e
         finally:
@@ -122,12 +127,16 @@ def check_case(case, res=None):
         bad = _diff(files_a, files_b)
         if bad:
             raise Violation("output_independent_of_walk_order_and_reruns", cj, "identical", f"differs: {bad[:5]}")
+        bad = _diff(files_a, _read_out(out_b2))
+        if bad:
+            raise Violation("output_independent_of_walk_order_and_reruns", cj, "identical",
+                            f"differs under walk permutation {case.get('walk_seed')}: {bad[:5]}")
         # ---- C: subprocess with a different hash seed and walk permutation
         out_c = os.path.join(pkg.root, "out_c")
         env = dict(os.environ, PYTHONHASHSEED=str(case.get("hashseed", 1)), PYTHONDONTWRITEBYTECODE="1")
         env.pop("PYTHONPATH", None)
         r = subprocess.run([PY, "-B", os.path.join(VERIF, "vlib", "sub_gen.py"), REPO, pkg.xml_root, out_c,
-                            str(case.get("walk_seed2", 2)), "0"], env=env, capture_output=True, text=True)
+                            "-2", "0"], env=env, capture_output=True, text=True)   # descending walk order
         try:
             jr = json.loads(r.stdout.strip().splitlines()[-1])
         except Exception:
@@ -137,7 +146,7 @@ def check_case(case, res=None):
         files_c = _read_out(out_c)
         bad = _diff(files_a, files_c)
         if bad:
-            raise Violation("output_independent_of_hash_seed", cj, "identical",
+            raise Violation("output_independent_of_hash_seed_and_walk_order", cj, "identical",
                             f"differs: {bad[:5]} (PYTHONHASHSEED={case.get('hashseed', 1)})")
         # ---- D: fresh interpreter import
         req = {"types": _expect_types(tree), "first_imports": []}
@@ -186,7 +195,7 @@ def run_task(task):
 
 
 def plan(tier, seed):
-    total = 320 if tier == "quick" else 4000
+    total = 480 if tier == "quick" else 5000
     W = 16
     return [{"n": total // W, "seed": seed * 1000 + w, "shrink": 60 if tier == "quick" else 400}
             for w in range(W)]
